@@ -524,6 +524,9 @@ def make_config(rng, i, tier='quick', force=None):
     r1, r2 = rng.random(), rng.random()
     cfg['n_points_min'] = None if r1 < 0.65 else int([n_dim + 2, n_dim + 6, 12][int((r1 - 0.65) / 0.35 * 3) % 3])
     cfg['split_threshold'] = 100 if r2 < 0.65 else [1.0, 5.0][int((r2 - 0.65) / 0.35 * 2) % 2]
+    # the other trigger of a bound attempt: few likelihood calls since the last one (boundary: one batch)
+    r3 = rng.random()
+    cfg['n_like_new_bound'] = None if r3 < 0.7 else (cfg['n_batch'] if r3 < 0.85 else 3 * cfg['n_batch'] + 1)
     if cfg['n_batch'] == 1:
         cfg['n_live'] = 30
         cfg['n_eff'] = min(cfg['n_eff'], 100)
